@@ -1063,6 +1063,10 @@ def guard_flow(fn, acquire_events, guard_ty_rx, extra_kill=None):
             moved_from = []
             for o in _rvalue_operands(rv):
                 if "m" in o and o["m"]["l"] in state:
+                    # a partial move (`x = move h.0`) takes the guard along only if the destination's
+                    # type still mentions the guard type; otherwise another field was moved out
+                    if o["m"].get("p") and not holds_ty(dl):
+                        continue
                     moved_from.append(o["m"]["l"])
             if moved_from:
                 for m in moved_from:
